@@ -50,3 +50,147 @@ Proof. intros H t0 Ht. apply step_no_thread. apply H. exact Ht. Qed.
 
 Lemma Beyond_run cf n sched s : Beyond n s -> Beyond n (run_state cf s sched).
 Proof. intros H t0 Ht. apply run_no_thread. apply H. exact Ht. Qed.
+
+(** ** Soundness of the mirror, per thread *)
+Definition GenBound_at (s : state) (t : N) : Prop := tl_gen (t_loc (thr s t)) + 4 < WORD.
+
+Definition DstEmpty_at (s : state) (t : N) : Prop :=
+  forall c h, t_status (thr s t) = Running ->
+    nth_error (t_prog (thr s t)) (N.to_nat (t_cmdi (thr s t))) = Some c -> cmd_dst c = Some h ->
+    hnd s h = HEmpty \/ (t_stack (thr s t) = [] /\ cmd_src c = Some h).
+
+Definition CloneSrcCmd_at (s : state) (t : N) : Prop :=
+  forall h h2 a rest, t_status (thr s t) = Running ->
+    nth_error (t_prog (thr s t)) (N.to_nat (t_cmdi (thr s t))) = Some (CClone h h2) ->
+    t_stack (thr s t) = CloneInc a :: rest ->
+    hnd s h = HOwned a \/ exists d, hnd s h = HGuard a d.
+
+Definition Scope_at (s : state) (t : N) : Prop := GenBound_at s t /\ DstEmpty_at s t /\ CloneSrcCmd_at s t.
+
+Lemma handle_empty_true h : handle_empty h = true -> h = HEmpty.
+Proof. destruct h; [reflexivity|discriminate..]. Qed.
+
+Theorem scope_thread_sound s t : scope_thread s t = true -> Scope_at s t.
+Proof.
+  unfold scope_thread. intros H. apply andb_true_iff in H as [Hg H].
+  split; [apply N.ltb_lt; exact Hg|]. split.
+  - intros c h Hr Hc Hd. rewrite Hr, Hc in H. apply andb_true_iff in H as [H _]. rewrite Hd in H.
+    apply orb_true_iff in H as [H|H]; [left; apply handle_empty_true; exact H|right].
+    apply andb_true_iff in H as [H1 H2]. split.
+    + destruct (t_stack (thr s t)); [reflexivity|discriminate H1].
+    + destruct (cmd_src c) as [h'|]; [|discriminate H2]. apply N.eqb_eq in H2. subst h'. reflexivity.
+  - intros h h2 a rest Hr Hc Hst. rewrite Hr, Hc, Hst in H. apply andb_true_iff in H as [_ H].
+    destruct (hnd s h) as [|a'|a' d|]; try discriminate H; apply N.eqb_eq in H; subst a'.
+    + left. reflexivity.
+    + right. exists d. reflexivity.
+Qed.
+
+Lemma no_thread_scope s t : thr s t = no_thread -> Scope_at s t.
+Proof.
+  intros H. unfold Scope_at, GenBound_at, DstEmpty_at, CloneSrcCmd_at. rewrite H. cbn.
+  split; [reflexivity|]. split; intros; discriminate.
+Qed.
+
+Theorem scope_alloc_sound s t x : scope_alloc s t x = true -> alloc_ok s t x.
+Proof.
+  unfold scope_alloc, alloc_ok. destruct (t_stack (thr s t)) as [|p rest]; [intros _; exact I|].
+  destruct p; try (intros _; exact I).
+  all: destruct (heap (sh s) x); [discriminate|]; intros H; split; [reflexivity|exact H].
+Qed.
+
+(** The per-state hypotheses of [RunOK] from the finite check. *)
+Definition thread_list (n : nat) : list N := map N.of_nat (seq 0 n).
+
+Lemma thread_list_in n t : t < N.of_nat n -> In t (thread_list n).
+Proof.
+  intros H. unfold thread_list. apply in_map_iff. exists (N.to_nat t). split; [lia|].
+  apply in_seq. lia.
+Qed.
+
+Definition scope_state (n : nat) (s : state) : bool := forallb (scope_thread s) (thread_list n).
+
+Theorem scope_state_sound n s :
+  Beyond n s -> scope_state n s = true -> GenBound s /\ DstEmpty s /\ CloneSrcCmd s.
+Proof.
+  intros B H.
+  assert (A : forall t, Scope_at s t).
+  { intros t. destruct (N.lt_ge_cases t (N.of_nat n)) as [Hlt|Hge].
+    - apply scope_thread_sound. apply (proj1 (forallb_forall _ _) H). apply thread_list_in. exact Hlt.
+    - apply no_thread_scope. apply B. exact Hge. }
+  split; [|split].
+  - intros t. apply (A t).
+  - intros t. apply (A t).
+  - intros t. apply (A t).
+Qed.
+
+(** ** The checker *)
+(** Walks along the schedule, carrying the state: every state passes [scope_state], every
+    scheduled step passes [scope_alloc]. *)
+Fixpoint run_b (cf : config) (n : nat) (s : state) (sched : list (N * N)) : bool :=
+  scope_state n s &&
+  match sched with
+  | [] => true
+  | (t, x) :: rest => scope_alloc s t x && run_b cf n (fst (step cf s t x)) rest
+  end.
+
+Lemma St_0 cf s sched : St cf s sched 0 = s.
+Proof. reflexivity. Qed.
+
+Lemma St_nil cf s k : St cf s [] k = s.
+Proof. unfold St. rewrite firstn_nil. reflexivity. Qed.
+
+Lemma St_cons cf s t x sched k : St cf s ((t, x) :: sched) (S k) = St cf (fst (step cf s t x)) sched k.
+Proof. reflexivity. Qed.
+
+Theorem run_b_sound cf n : forall sched s, Beyond n s -> run_b cf n s sched = true ->
+  (forall k, GenBound (St cf s sched k) /\ DstEmpty (St cf s sched k) /\ CloneSrcCmd (St cf s sched k)) /\
+  (forall k t x, nth_error sched k = Some (t, x) -> alloc_ok (St cf s sched k) t x).
+Proof.
+  induction sched as [|[t x] sched IH]; intros s B H; cbn [run_b] in H; apply andb_true_iff in H as [Hs H].
+  - split.
+    + intros k. rewrite St_nil. apply (scope_state_sound n); assumption.
+    + intros [|k] t x Hk; discriminate Hk.
+  - apply andb_true_iff in H as [Ha H].
+    destruct (IH _ (Beyond_step cf n s t x B) H) as [IH1 IH2]. split.
+    + intros [|k]; [rewrite St_0; apply (scope_state_sound n); assumption|].
+      rewrite St_cons. apply IH1.
+    + intros [|k] t' x' Hk.
+      * injection Hk as <- <-. rewrite St_0. apply scope_alloc_sound. exact Ha.
+      * rewrite St_cons. apply IH2. exact Hk.
+Qed.
+
+Definition inits_b (inits : list N) : bool :=
+  forallb (fun a => (a =? 0) || (negb (a =? 0) && negb (a =? NONE))) inits.
+
+Lemma inits_b_sound inits : inits_b inits = true -> inits_ok inits.
+Proof.
+  intros H a Ha. apply (proj1 (forallb_forall _ _) H) in Ha.
+  apply orb_true_iff in Ha as [Ha|Ha]; [left; apply N.eqb_eq; exact Ha|right].
+  apply andb_true_iff in Ha as [H1 H2]. apply negb_true_iff in H1, H2.
+  split; apply N.eqb_neq; assumption.
+Qed.
+
+Definition cmd_b (c : cmd) : bool :=
+  match c with CSetGen _ | CCacheNew _ _ | CCacheLoad _ => false | _ => true end.
+
+Definition progs_b (progs : list (list cmd)) : bool := forallb (forallb cmd_b) progs.
+
+Lemma progs_b_sound progs : progs_b progs = true -> progs_ok progs.
+Proof.
+  intros H.
+  assert (A : forall p c, In p progs -> In c p -> cmd_b c = true).
+  { intros p c Hp Hc. apply (proj1 (forallb_forall _ _) H) in Hp. exact (proj1 (forallb_forall _ _) Hp c Hc). }
+  split.
+  - intros p Hp g Hin. specialize (A p _ Hp Hin). discriminate A.
+  - intros p c Hp Hc. specialize (A p c Hp Hc). destruct c; try exact I; discriminate A.
+Qed.
+
+Definition runok_b (cf : config) (inits : list N) (progs : list (list cmd)) (sched : list (N * N)) : bool :=
+  inits_b inits && progs_b progs && run_b cf (length progs) (init_state inits progs) sched.
+
+Theorem runok_b_sound cf inits progs sched : runok_b cf inits progs sched = true -> RunOK cf inits progs sched.
+Proof.
+  intros H. apply andb_true_iff in H as [H Hr]. apply andb_true_iff in H as [Hi Hp].
+  destruct (run_b_sound cf (length progs) sched _ (Beyond_init inits progs) Hr) as [H1 H2].
+  constructor; [apply inits_b_sound; exact Hi|apply progs_b_sound; exact Hp|exact H1|exact H2].
+Qed.
